@@ -156,7 +156,8 @@ theorem layout_linear_increasing (v : View ν α) (h : v.WF) (order : List ν)
     `TensorRange/TensorMask::from`, `from_all`,
     `from_strict`, `from_all_strict`, `TensorIndex::from`, `TensorExpansion::from` with its stable
     sort, `TensorRename::from`, `TensorReverse::from`, `TensorAccess/TensorTranspose::try_from`,
-    `TensorStack::from`, `TensorChain::from`) accepts only arguments for which the resulting view
+    `TensorStack::from`, `TensorChain::from`) and every mutator of an existing view
+    (`TensorRename::set_names`, `source_ref_mut` of `TensorRename` / `TensorReverse`) accepts only arguments for which the resulting view
     is well formed, given well-formed sources.  The two size side conditions are the ones
     discussed at `View.WF`. -/
 theorem constructors_establish_wf :
@@ -175,8 +176,18 @@ theorem constructors_establish_wf :
       (∀ ns, mkAccess s ns = some v → v.WF) ∧ (∀ ns, mkTranspose s ns = some v → v.WF)) ∧
     (∀ (ss : List (View ν α)) (v : View ν α), (∀ s ∈ ss, s.WF) →
       (∀ along, ss.length ≤ usizeMax → mkStack ss along = some v → v.WF) ∧
-      (∀ along, (∀ a, (chainLens (shapes ss) a).sum ≤ usizeMax) → mkChain ss along = some v → v.WF)) := by
-  refine ⟨fun _ _ _ _ h hm => mkTensor_wf h hm, fun _ _ _ _ _ _ _ h hm => mkMatrix_wf h hm, ?_, ?_⟩
+      (∀ along, (∀ a, (chainLens (shapes ss) a).sum ≤ usizeMax) → mkChain ss along = some v → v.WF)) ∧
+    -- the mutators of an existing view: `TensorRename::set_names` (accepted or refused: the view
+    -- that exists afterwards is well formed, and it is the old one when the call panicked) and
+    -- replacing the source through `source_ref_mut` (`TensorRename`, `TensorReverse`)
+    (∀ (v : View ν α) (dimensions : List ν), v.WF → dimensions.length = v.shape.length →
+      (v.setNames dimensions).1.WF ∧
+      (∀ k, (v.setNames dimensions).2 = .panic k → (v.setNames dimensions).1 = v)) ∧
+    (∀ (v s s' : View ν α), v.WF → s'.WF → v.sourceOf = some s →
+      s'.shape.length = s.shape.length → (v.replaceSource s').WF) := by
+  refine ⟨fun _ _ _ _ h hm => mkTensor_wf h hm, fun _ _ _ _ _ _ _ h hm => mkMatrix_wf h hm, ?_, ?_,
+    fun v ns hv hl => ⟨setNames_wf hv hl, fun k h => setNames_panic_unchanged v ns k h⟩,
+    fun _ _ _ hv hs' hsrc hl => replaceSource_wf hv hs' hsrc hl⟩
   · intro s v hs
     exact ⟨fun _ _ h => mkMatrixOf_wf hs h, fun _ h => mkRange_wf hs h, fun _ h => mkRangeStrict_wf hs h, fun _ h => mkRangeAll_wf hs h,
       fun _ h => mkRangeAllStrict_wf hs h, fun _ h => mkMask_wf hs h, fun _ h => mkMaskStrict_wf hs h,
